@@ -5,6 +5,7 @@ import pyarrow as pa
 
 from mc.explorer import Skip
 from mc.runner import Sub
+from props.common import dense
 
 from formulaic import Formula, ModelSpec, model_matrix
 from formulaic.materializers import FormulaMaterializer, NarwhalsMaterializer, PandasMaterializer
@@ -53,13 +54,6 @@ def frames():
 def to_arrow(df):
     return pa.Table.from_pandas(df, preserve_index=False)
 
-
-def dense(m):
-    if hasattr(m, "toarray"):
-        return np.asarray(m.toarray(), dtype=float)
-    if isinstance(m, pd.DataFrame):
-        return m.to_numpy(dtype=float)
-    return np.asarray(m, dtype=float)
 
 
 def parts(mm):
